@@ -21,7 +21,9 @@ type c16Case struct {
 	GapPct    int    `json:"gap_pct"` // active: spacing as percent of T (10..80)
 	Mult      int    `json:"mult"`    // active: lifetime in multiples of T
 	Target    string `json:"target"`
-	OpenFirst bool   `json:"open_first"` // hold an open file and directory while idling
+	OpenFirst bool   `json:"open_first"`        // hold an open file and directory while idling
+	Kind      string `json:"kind,omitempty"`    // stall: which request is left incomplete: stat (default) | open | write (16-byte command + payload)
+	Trickle   bool   `json:"trickle,omitempty"` // stall: after the first K bytes the rest keeps arriving one byte every GapPct% of T (never completing)
 }
 
 func genC16(t *rapid.T) c16Case {
@@ -31,7 +33,11 @@ func genC16(t *rapid.T) c16Case {
 	case "after-k":
 		c.K = rapid.IntRange(1, 12).Draw(t, "k")
 	case "stall":
-		c.K = rapid.IntRange(1, 40).Draw(t, "bytes") // 1..15 inside the command, 16.. inside the path
+		c.K = rapid.IntRange(1, 40).Draw(t, "bytes") // 1..15 inside the command, 16.. inside the path or payload
+		c.Kind = rapid.SampledFrom([]string{"stat", "stat", "open", "write", "write"}).Draw(t, "kind")
+		if c.Trickle = rapid.Bool().Draw(t, "trickle"); c.Trickle {
+			c.GapPct = rapid.IntRange(20, 80).Draw(t, "trickle-gap")
+		}
 	case "active":
 		c.GapPct = rapid.IntRange(10, 80).Draw(t, "gap")
 		c.Mult = rapid.IntRange(5, 30).Draw(t, "mult")
@@ -141,7 +147,15 @@ func runC16Once(c c16Case, st *hx.Stats) (c16Result, error) {
 			return res, err
 		}
 	case "stall":
-		enc := hx.Req{Op: "STAT", Path: "/d/some/longer/path/inside/the/root"}.Encode()
+		var enc []byte
+		switch c.Kind {
+		case "open":
+			enc = hx.Req{Op: "OPEN_FILE", Path: "/d/some/longer/path/inside/the/root/that/does/not/exist"}.Encode()
+		case "write":
+			enc = hx.Req{Op: "WRITE", N: 4000, Seed: 9}.Encode() // refused or not, its payload belongs to the request
+		default:
+			enc = hx.Req{Op: "STAT", Path: "/d/some/longer/path/inside/the/root/and/some/more/of/it"}.Encode()
+		}
 		k := c.K
 		if k >= len(enc) {
 			k = len(enc) - 1
@@ -149,7 +163,34 @@ func runC16Once(c c16Case, st *hx.Stats) (c16Result, error) {
 		if err := conn.Send(enc[:k]); err != nil {
 			return res, err
 		}
-		if err := expectCut(fmt.Sprintf("stalled after %d of %d request bytes", k, len(enc))); err != nil {
+		what := fmt.Sprintf("stalled after %d of %d bytes of a %s request", k, len(enc), orDefault(c.Kind, "stat"))
+		stop := make(chan struct{})
+		done := make(chan struct{})
+		if c.Trickle {
+			// the rest keeps dribbling in, each gap shorter than T, the request never complete: still "no complete
+			// next request within T"
+			gap := T * time.Duration(c.GapPct) / 100
+			what = fmt.Sprintf("%s request trickling in (1 byte every %v after %d of %d bytes)", orDefault(c.Kind, "stat"), gap, k, len(enc))
+			go func() {
+				defer close(done)
+				for i := k; i < len(enc)-1; i++ {
+					select {
+					case <-stop:
+						return
+					case <-time.After(gap):
+					}
+					if conn.Send(enc[i:i+1]) != nil {
+						return
+					}
+				}
+			}()
+		} else {
+			close(done)
+		}
+		err := expectCut(what)
+		close(stop)
+		<-done
+		if err != nil {
 			return res, err
 		}
 	case "active":
@@ -223,7 +264,8 @@ func runC16(c c16Case, st *hx.Stats) error {
 	}
 	st.Label("script="+c.Script, "target="+c.Target, fmt.Sprintf("T=%dms", c.TMs))
 	if c.Script == "stall" {
-		st.NT(fmt.Sprintf("stall|%d|%d|%s|%v", c.TMs, c.K, c.Target, c.OpenFirst))
+		st.NT(fmt.Sprintf("stall|%d|%d|%s|%v|%s|%v", c.TMs, c.K, c.Target, c.OpenFirst, c.Kind, c.Trickle))
+		st.Label("incomplete request: "+orDefault(c.Kind, "stat"), fmt.Sprintf("trickle=%v", c.Trickle))
 	}
 	st.Sample(c)
 	return err
@@ -237,4 +279,30 @@ func TestC16Idle(t *testing.T) {
 func TestC16IdleBin(t *testing.T) {
 	st := hx.NewStats("C16", "idle-bin")
 	hx.RunProp(t, st, func(t *rapid.T) c16Case { c := genC16(t); c.Target = "bin"; return c }, runC16, hx.PropOpts{})
+}
+
+// TestC16Matrix: the incomplete-request shapes as a fixed matrix (both tiers): which request x where it stops x
+// whether the rest keeps trickling in x library/binary. The random units above sample timings; this one makes sure
+// every shape is seen in every run.
+func TestC16Matrix(t *testing.T) {
+	st := hx.NewStats("C16", "matrix")
+	st.MarkExhaustive("incomplete request {stat, open, write} x stops {inside the 16-byte command, inside the path/payload} x {silent, trickling at 0.3T and 0.7T} x holding open handles or not x {library, real binary}, T = 200 ms")
+	cases := func(yield func(c16Case) bool) {
+		for _, target := range []string{"inproc", "bin"} {
+			for _, kind := range []string{"stat", "open", "write"} {
+				for _, k := range []int{1, 9, 15, 16, 17, 30} {
+					for _, gap := range []int{0, 30, 70} {
+						c := c16Case{TMs: 200, Script: "stall", K: k, Kind: kind, Trickle: gap > 0, GapPct: gap, Target: target, OpenFirst: (k+gap)%2 == 0}
+						if target == "bin" && (k == 9 || k == 17) {
+							continue
+						}
+						if !yield(c) {
+							return
+						}
+					}
+				}
+			}
+		}
+	}
+	hx.RunCases(t, st, cases, runC16, hx.PropOpts{})
 }
